@@ -62,6 +62,55 @@ theorem mapE_error_head {α β : Type} (f : α → Except PyErr β) (a : α) (re
     (h : f a = .error err) : mapE f (a :: rest) = .error err := by
   simp [mapE, h]
 
+/-! ### verbose printing: formatting succeeds iff every value is formattable -/
+
+theorem fmtJoin_ok {V : Type} (fmt : V → Except PyErr String) (mid : String) :
+    ∀ (d : Dict String V), (∀ kv ∈ d, ∃ t, fmt kv.2 = .ok t) → ∃ line, fmtJoin fmt mid d = .ok line := by
+  intro d h
+  have : ∃ parts, mapE (fmtItem fmt mid) d = .ok parts := by
+    induction d with
+    | nil => exact ⟨[], rfl⟩
+    | cons a rest ih =>
+      obtain ⟨t, ht⟩ := h a (by simp)
+      obtain ⟨ps, hps⟩ := ih (fun kv hkv => h kv (by simp [hkv]))
+      exact ⟨(a.1 ++ mid ++ t) :: ps, by simp [mapE, fmtItem, ht, hps]⟩
+  obtain ⟨parts, hp⟩ := this
+  exact ⟨joinWith "\t" parts, by simp [fmtJoin, hp]⟩
+
+theorem fmtJoin_error {V : Type} (fmt : V → Except PyErr String) (mid : String) :
+    ∀ (d : Dict String V), (∃ kv ∈ d, ∃ e, fmt kv.2 = .error e) → ∃ err, fmtJoin fmt mid d = .error err := by
+  intro d h
+  have : ∃ err, mapE (fmtItem fmt mid) d = .error err := by
+    induction d with
+    | nil => obtain ⟨kv, hkv, _⟩ := h; simp at hkv
+    | cons a rest ih =>
+      cases ha : fmt a.2 with
+      | error e => exact ⟨e, by simp [mapE, fmtItem, ha]⟩
+      | ok t =>
+        obtain ⟨kv, hkv, e, he⟩ := h
+        have hin : kv ∈ rest := by
+          rcases List.mem_cons.mp hkv with rfl | h'
+          · rw [ha] at he; cases he
+          · exact h'
+        obtain ⟨err, herr⟩ := ih ⟨kv, hin, e, he⟩
+        exact ⟨err, by simp [mapE, fmtItem, ha, herr]⟩
+  obtain ⟨err, hp⟩ := this
+  exact ⟨err, by simp [fmtJoin, hp]⟩
+
+theorem verboseBody_ok {V : Type} (fmt : V → Except PyErr String) :
+    ∀ (last : Dict String (Dict String V)), (∀ od ∈ last, ∀ kv ∈ od.2, ∃ t, fmt kv.2 = .ok t) →
+      ∃ body, ObservableEvaluator.verboseBody fmt last = .ok body := by
+  intro last h
+  have : ∃ parts, mapE (ObservableEvaluator.verboseItem fmt) last = .ok parts := by
+    induction last with
+    | nil => exact ⟨[], rfl⟩
+    | cons a rest ih =>
+      obtain ⟨t, ht⟩ := fmtJoin_ok fmt ": " a.2 (h a (by simp))
+      obtain ⟨ps, hps⟩ := ih (fun od hod => h od (by simp [hod]))
+      exact ⟨("  " ++ a.1 ++ ":\n    " ++ t) :: ps, by simp [mapE, ObservableEvaluator.verboseItem, ht, hps]⟩
+  obtain ⟨parts, hp⟩ := this
+  exact ⟨joinWith "\n" parts, by simp [ObservableEvaluator.verboseBody, hp]⟩
+
 /-! ### `runWith` -/
 
 theorem runWith_append {S E : Type} (step : S → E → Except PyErr S) (s : S) (a b : List E) :
